@@ -49,7 +49,7 @@ func PushGot(c int) Op                    { return Op{Kind: "push", C: c, E: &Ex
 func PushAcc(c int) Op                    { return Op{Kind: "push", C: c, E: &Expr{Kind: "acc"}} }
 func Pop(c int) Op                        { return Op{Kind: "pop", C: c} }
 func Range(c int) Op                      { return Op{Kind: "range", C: c} }
-func Select(cs ...int) Op                 { return Op{Kind: "select", Cs: cs} }
+func Select(cs ...int) Op                 { return Op{Kind: "select", Cs: cs} } // -1: a timeout clause
 func Close(c int) Op                      { return Op{Kind: "close", C: c} }
 func Load(x int) Op                       { return Op{Kind: "load", X: x} }
 func Store(x int, e *Expr) Op             { return Op{Kind: "store", X: x, E: e} }
@@ -91,7 +91,11 @@ func (o Op) Gallina() string {
 	case "select":
 		var cs []string
 		for _, c := range o.Cs {
-			cs = append(cs, fmt.Sprint(c))
+			if c < 0 {
+				cs = append(cs, "None") // a timeout clause
+			} else {
+				cs = append(cs, fmt.Sprintf("Some %d", c))
+			}
 		}
 		return "OSelect [" + strings.Join(cs, ";") + "]"
 	case "close":
@@ -205,6 +209,11 @@ func (rd *renderer) op(b *strings.Builder, o Op) {
 	case "select":
 		b.WriteString(" (select")
 		for _, c := range o.Cs {
+			if c < 0 {
+				// a timeout that cannot fire during the run; were its clause evaluated, the log would say so (tag 99)
+				b.WriteString(" ((time-after 1000) tv (setq log (cons (list 99 0) log)))")
+				continue
+			}
 			fmt.Fprintf(b, " (c%d v (setq got v) (setq log (cons (list %d v) log)))", c, c)
 		}
 		b.WriteString(")")
